@@ -311,3 +311,10 @@ def r11_8(ctx):
         ok = bool(drops) and any("FreeTime" in ast.unparse(t) for d in drops for t, p in sc.guards(d) if p)
         ctx.check(ok, "Stage.%s(FreeTime(guess)) withdraws an older guess for the horizon" % fname, detail="a guess recorded earlier with set_initial(ocp.T, ..) overrules the guess of a later FreeTime declaration",
                   expected="if isinstance(value, FreeTime): drop self._initial[%s]" % ph, found="; ".join(ast.unparse(d) for d in drops) or "no withdrawal", fi=f)
+
+
+@rule("R11.11", min_instances=6, desc="a constraint on the horizon that folds to a constant once a fixed T/t0 is substituted is judged like the free-time constraint restricted to that value: link by link, with the right links (shared with C20: R20.6, R20.7)")
+def r11_11(ctx):
+    from .c20 import r20_6, r20_7
+    r20_6(ctx)
+    r20_7(ctx)
